@@ -333,6 +333,10 @@ M('F41R', 'src/xdoctest/utils/util_import.py', """        elif sys.path[self.ind
 M('F33bR', 'src/xdoctest/static_analysis.py', """        pt = ast.parse(self.source.lstrip('\\ufeff'))""", """        pt = ast.parse(self.source.encode('utf8'))""", ['C16'], 'F33b repair reverted: the text of a module with an encoding cookie is decoded twice')
 M('F42R', 'src/xdoctest/static_analysis.py', """            while (linex < len(self.sourcelines) and
                    not re.match(pattern, self.sourcelines[linex])):""", """            while not re.match(pattern, self.sourcelines[linex]):""", ['C08'], 'F42 repair reverted: the search for the def line of a decorated function has no bound')
+M('F43R', 'src/xdoctest/doctest_example.py', """                            self._unmatched_stdout = []
+                        else:
+                            raise""", """                        else:
+                            raise""", ['C03'], 'F43 repair reverted: output printed before an expected exception satisfies a later want')
 M('F17R', 'src/xdoctest/doctest_example.py', """                part_directive = None
                 try:
                     try:
